@@ -468,19 +468,19 @@ SUBCHECKS = [
 ]
 SUBCHECKS += [
     SubCheck("owned_schedules", check_schedules, strategy=_schedule_cases(60), nontrivial=lambda c: True, classes=_classes_sched,
-             quick=96, thorough=2400, shards_quick=8, shards_thorough=48, setup=_setup,
+             quick=72, thorough=2400, shards_quick=8, shards_thorough=48, setup=_setup,
              rule="2..3 calls (a family of one entry point sharing part of its arguments / two arbitrary calls / the same call twice) run in "
                   "one thread each under a schedule the harness owns (sys.monitoring LINE events of the library's files: a thread "
                   "loses the baton only where the plan says): alternation after every 1, 2, 3, 7 library lines, and every call pre-empted "
                   "once (and twice) at a stratified sample of its library lines - about 60 schedules per case; each result bit-identical "
                   "to a process that made no other call; constants, write barrier and arguments as in the other sub-checks"),
     SubCheck("owned_schedules_shared_arguments", check_schedules, strategy=_schedule_cases(24, shared_only=True), nontrivial=lambda c: True,
-             classes=_classes_sched, quick=160, thorough=4000, shards_quick=8, shards_thorough=48, setup=_setup,
+             classes=_classes_sched, quick=128, thorough=4000, shards_quick=8, shards_thorough=48, setup=_setup,
              rule="one call that is handed something the caller made (array, list, angle / coordinate / grid object, own parameter set or "
                   "ellipsoid) runs in two threads on the VERY SAME argument objects under about 24 owned schedules: a function that modifies "
                   "an argument and restores it before returning passes every sequential comparison and fails here"),
     SubCheck("owned_schedules_complete", check_schedules, strategy=_schedule_cases(1500), nontrivial=lambda c: True, classes=_classes_sched,
-             quick=24, thorough=960, shards_quick=6, shards_thorough=48, setup=_setup,
+             quick=18, thorough=960, shards_quick=6, shards_thorough=48, setup=_setup,
              rule="the same with up to 1500 schedules per case: EVERY single pre-emption point of every call whose solo run takes fewer "
                   "library lines than that (pre-emption-bounded enumeration, bound 1, complete per case at library-line granularity; "
                   "class 'every pre-emption point'), a stratified sample otherwise, plus a sample of double pre-emptions"),
